@@ -182,8 +182,12 @@ def matchesMerge (ml : MatchList) (mh : Match) : MatchList × Match :=
           (removeFirst ml other, mh')
     | none => (ml, mh)
 
-def NAME_MAX1 : Nat := 256
-def PATH_MAX : Nat := 4096
+/-- `NAME_MAX + 1` and `PATH_MAX` of the platform headers the sources are compiled against (`cc -E -dM`, regenerated into
+`Gen.nameMax` / `Gen.pathMax` on every run).  The numbers themselves are written in one place only, the evaluated lemmas of
+`Proofs/GenBridge.lean`, which stop checking when the platform (or a `#define` of the tree) changes the limits; the
+executable model (and with it the driver of the correspondence run) follows the regenerated values. -/
+def NAME_MAX1 : Nat := Gen.nameMax + 1
+def PATH_MAX : Nat := Gen.pathMax
 
 /-- `matches_append(ml, mh)`: `(list, failed)`; on failure the entry is already in the list. -/
 def matchesAppend (env : Env) (ml : MatchList) (mh : Match) : MatchList × Bool :=
